@@ -34,9 +34,9 @@ Definition ptags_d : P (list (Z * Z)) := plist (ppair pint pint).
 Definition pitem : P item_d :=
   k <- pint ;;
   if k =? 0 then
-    hi <- pbool ;; cols <- pflags ;; kv <- pbool ;;
+    hi <- pbool ;; cols <- pflags ;; kv <- pbool ;; om <- pbool ;;
     ns <- plist (id <- pint ;; la <- pint ;; lo <- pint ;; i <- pinfo_d ;; t <- ptags_d ;; ret (mkDN id la lo i t)) ;;
-    ret (IDense (mkDense ns hi cols kv))
+    ret (IDense (mkDense ns hi cols kv om))
   else if k =? 1 then
     id <- pint ;; hi <- pbool ;; fl <- pflags ;; i <- pinfo_d ;; t <- ptags_d ;; ft <- pbool ;;
     refs <- plist pint ;; fr <- pbool ;; hl <- pbool ;; la <- plist pint ;; lo <- plist pint ;;
